@@ -38,24 +38,28 @@ def sh(cmd, timeout=None):
     return p.returncode, p.stdout.decode("utf-8", "replace")
 
 
+R = os.environ.get("SEED_REPO", "/var/tmp/seedrepo")      # scratch worktree of /repo HEAD: /repo itself stays free for other work
+
+
 def main():
     seeds = sys.argv[1:] or sorted(MAP)
-    rc, out = sh("git -C /repo status --porcelain")
-    if out.strip():
-        print("/repo is not clean; refusing"); return 2
+    sh("git -C /repo worktree remove --force %s" % R)
+    rc, out = sh("git -C /repo worktree add --detach %s HEAD" % R)
+    if rc != 0:
+        print("cannot create worktree", out); return 2
     tier = os.environ.get("SEED_TIER", "quick")
     for s in seeds:
         d = os.path.join(V, "seeded", s)
         if not os.path.isdir(d):
             print(s, "missing"); continue
-        rc, out = sh("git -C /repo apply %s/patch.diff" % d)
+        rc, out = sh("git -C %s apply %s/patch.diff" % (R, d))
         if rc != 0:
-            print(s, "PATCH DOES NOT APPLY", out[-200:]); sh("git -C /repo checkout -- ."); continue
+            print(s, "PATCH DOES NOT APPLY", out[-200:]); sh("git -C %s checkout -- ." % R); continue
         caught = []
         ran = []
         try:
             for pid, only in MAP.get(s, []):
-                cmd = "cd %s && timeout 1500 python3 run_check.py %s --tier %s --no-evidence" % (V, pid, tier)
+                cmd = "cd %s && VERIF_REPO=%s timeout 1500 python3 run_check.py %s --tier %s --no-evidence" % (V, R, pid, tier)
                 if only:
                     cmd += " --only '%s'" % only
                 t0 = time.time()
@@ -66,16 +70,14 @@ def main():
                 if rc == 1 and any(l.startswith("VIOLATION") for l in viol):
                     caught.append(pid + (":" + only if only else ""))
         finally:
-            sh("git -C /repo checkout -- .")
+            sh("git -C %s checkout -- ." % R)
         meta_p = os.path.join(d, "meta.json")
         meta = json.load(open(meta_p)) if os.path.isfile(meta_p) else {}
         meta["detected_by"] = caught
         meta["checks_run_against_it"] = ran
         json.dump(meta, open(meta_p, "w"), indent=1)
         print("%-16s %s  %s" % (s, "CAUGHT by " + ", ".join(caught) if caught else "missed", "; ".join("%s rc=%s %ss" % (r["check"], r["exit"], r["wall_s"]) for r in ran)), flush=True)
-    rc, out = sh("git -C /repo status --porcelain")
-    if out.strip():
-        print("WARNING: /repo not clean after run:", out)
+    sh("git -C /repo worktree remove --force %s" % R)
     return 0
 
 
